@@ -7,6 +7,7 @@ import (
 	"os"
 	"sort"
 	"strconv"
+	"strings"
 )
 
 func main() {
@@ -42,6 +43,13 @@ func main() {
 		}
 		fmt.Printf("replaying rule %s (obligation %s)\n", m.Rule, m.Key)
 		os.Exit(doCheck(m.Property, "thorough", *repo, m.Rule, true, false))
+	case "list-md":
+		sort.SliceStable(allRules, func(i, j int) bool { return allRules[i].ID < allRules[j].ID })
+		fmt.Println("| rule | serves | min. instances | what is decided |")
+		fmt.Println("|---|---|---|---|")
+		for _, r := range allRules {
+			fmt.Printf("| %s | %s | %d | %s |\n", r.ID, strings.Join(r.Props, " "), r.Min, strings.ReplaceAll(r.Doc, "|", "\\|"))
+		}
 	case "list":
 		sort.SliceStable(allRules, func(i, j int) bool { return allRules[i].ID < allRules[j].ID })
 		for _, r := range allRules {
